@@ -18,7 +18,12 @@ PROP = {'engine': 'ht',
          'functor or String keys, int values, four live forward/backward iterators, populations walked across 7/8, 255/256 (and 65535/65536 in the thorough '
          'tier), alias mode (arguments that are references into the table); every op executed on the real class and on the Lean model, results (status, '
          'values, iterator positions, full dumps) must be identical; direct oracle = std::list reference + iterator completeness/no-duplicate/no-dangling '
-         'bookkeeping; distinct = distinct case bodies'}
+         'bookkeeping; directed scenarios: capacities of exactly 256 / 65536 slots (EnsureSize, preallocating constructor, ShrinkToFit at exactly that population, copies; keys hashing '
+         'to the last slot), several iterators parked on one entry across reallocation, re-positioning of updated entries in sorted tables, auto-sort toggling, '
+         'moved-from / zero-capacity tables and the whole cross-table family (SwapContents, move construction/assignment, CopyFrom, Put(table), MoveToTable, '
+         'CopyToTable, SwapWithTable, Remove(table), Intersect, IsEqualTo); three open findings (C09-R1..R3) are behaviour switches of the model probed from the '
+         'real code and passed on the init line, their triggers stay out of the random stream while open and run from corpus/C09/ht-known-*.ops; '
+         'distinct = distinct case bodies'}
 
 TEXT = {'design_ref': 'DESIGN.md section 4, C09',
  'technique': 'Lean 4 theorems (map laws, order laws of every operation, auto-sort invariant, iterator non-dangling invariant over all reachable states, '
